@@ -225,8 +225,19 @@ def run(db, chk) -> None:
         any(H.match("$t.sym_index[$s] = $i", st_) is not None and len(lp_.body) == 1 for lp_, b_ in H.find_match("for $i, $s in enumerate($t.sym_table): pass", cr) for st_ in lp_.body) or \
         any(isinstance(lp_, ast.For) and H.match("enumerate($t.sym_table)", lp_.iter) is not None and isinstance(lp_.target, ast.Tuple) and len(lp_.body) == 1 and
             H.match(f"$t.sym_index[{H.name_id(lp_.target.elts[1])}] = {H.name_id(lp_.target.elts[0])}", lp_.body[0]) is not None for lp_ in ast.walk(cr))
-    if not okcr and not any("sym_index" in ast.unparse(s_) for s_ in cr.body):
+    if not okcr:
+        # another spelling: decided by evaluating the function on a small map with a hole ({'a': 0, 'c': 2} -> table [a, Undefined-1, c], index = positions)
+        from ..core.interp import Interp as _I
+        from ..core.values import Obj as _O
+        try:
+            rs_ = [r_ for r_ in _I(db).explore(f"{ST}:TraceSymbolTable.create_from_symbol_id_map", lambda I: {"symbol_id_map": {"a": 0, "c": 2}}) if r_.raised is None]
+        except Exception:          # noqa
+            rs_ = []
         okcr = None
+        if len(rs_) == 1 and isinstance(rs_[0].ret, _O):
+            tb_, ix_ = rs_[0].ret.attrs.get("sym_table"), rs_[0].ret.attrs.get("sym_index")
+            if isinstance(tb_, list) and isinstance(ix_, dict) and all(isinstance(x, str) for x in tb_) and all(isinstance(k_, str) and isinstance(v_, int) for k_, v_ in ix_.items()):
+                okcr = tb_ == ["a", "Undefined-1", "c"] and ix_ == {"a": 0, "Undefined-1": 1, "c": 2}
     chk.ob("C11.R1-append-only", "create_from_symbol_id_map derives sym_index from an enumeration of the sym_table it built", okcr, st.loc(cr),
            found=[ast.unparse(s)[:90] for s in cr.body if "sym_index" in ast.unparse(s)], accepted="tst.sym_index.update({s: i for i, s in enumerate(tst.sym_table)})")
     chk.floor("C11.R1-append-only", 8)
